@@ -203,15 +203,18 @@ impl Cluster {
         (0..self.cfg.n).filter(|j| *j != i).map(|j| j.to_string()).collect()
     }
     fn make_node(&self, i: usize) -> RaftNode {
+        self.try_make_node(i).expect("with_wal")
+    }
+    fn try_make_node(&self, i: usize) -> Result<RaftNode, String> {
         let tr = Arc::new(MemoryTransport::new(i.to_string()));
         let node = if let Some(d) = &self.dir {
             RaftNode::with_wal(i.to_string(), self.peers(i), tr, raft_config(&self.cfg), d.path().join(format!("n{i}.wal")))
-                .expect("with_wal")
+                .map_err(|e| format!("{e:?}"))?
         } else {
             RaftNode::new(i.to_string(), self.peers(i), tr, raft_config(&self.cfg))
         };
         node.update_state_embedding(emb(true));
-        node
+        Ok(node)
     }
     fn new(cfg: Cfg) -> Cluster {
         let dir = if cfg.wal { Some(tempfile::tempdir().unwrap()) } else { None };
@@ -440,11 +443,46 @@ fn exec(cl: &mut Cluster, ev: &Ev, run: &mut Run, trace: &mut Vec<String>, strea
             let held = before["log"].clone();
             let (held_term, held_vote) = (before["t"].clone(), before["v"].clone());
             cl.nodes[i] = None; // drop: closes the WAL
-            let nd = cl.make_node(i);
+            // A crash can also cut an append that was in flight: part of the next record's frame is then left at
+            // the end of the file — 1..7 bytes (inside the 8-byte header) or a whole header and part of the
+            // payload.  The node never acted on that record, so the state it held is still the durable state;
+            // the restart has to cut the torn tail (open truncates the file to its last complete frame), or
+            // whatever it appends next is unreadable at the restart after that.  Chosen from the position in the
+            // trace, so a run replays.
+            if let Some(d) = &cl.dir {
+                let torn: &[u8] = match (trace.len() + i) % 4 {
+                    1 => &[0x2a, 0, 0, 0, 0x11][..(trace.len() % 5) + 1],
+                    2 => &[0x2a, 0, 0, 0, 0x11, 0x22, 0x33],
+                    3 => &[64, 0, 0, 0, 1, 2, 3, 4, 9, 9, 9, 9, 9],
+                    _ => &[],
+                };
+                if !torn.is_empty() {
+                    use std::io::Write;
+                    let mut f = std::fs::OpenOptions::new().append(true).open(d.path().join(format!("n{i}.wal"))).expect("wal file");
+                    f.write_all(torn).expect("torn tail");
+                    run.rep.hit(if torn.len() < 8 { "ev.crash.torn_header" } else { "ev.crash.torn_payload" });
+                }
+            }
+            let line = format!("crash {i}");
+            let nd = match cl.try_make_node(i) {
+                Ok(nd) => nd,
+                Err(e) => {
+                    // the node cannot come back from the WAL it wrote itself: everything it had promised (term,
+                    // vote, acknowledged entries) is gone with it.  The schedule ends here.
+                    trace.push(line);
+                    run.rep.violation(
+                        "tensor_chain.raft/restart_refuses_own_wal",
+                        &format!("node {i} (term {held_term}, vote {held_vote}, log {held}) cannot restart from the WAL it wrote: {}", e.chars().take(160).collect::<String>()),
+                        json!({"n": cl.cfg.n, "pre_vote": cl.cfg.pre_vote, "geo": cl.cfg.geo, "fast_path": cl.cfg.fast_path, "wal": cl.cfg.wal, "events": trace}),
+                    );
+                    let tr = Arc::new(MemoryTransport::new(i.to_string()));
+                    cl.nodes[i] = Some(RaftNode::new(i.to_string(), cl.peers(i), tr, raft_config(&cl.cfg)));
+                    return false;
+                }
+            };
             cl.nodes[i] = Some(nd);
             cl.hb_old[i] = false;
             cl.snap_idx[i] = 0;
-            let line = format!("crash {i}");
             trace.push(line.clone());
             // durable state = held state: every entry the node held (and may have acknowledged) went to
             // the WAL before it was held, so a restart recovers exactly the log the node had in memory
